@@ -46,6 +46,9 @@ def cases(tier):
     yield ("faults",)
     for n in (1, 2, 3):
         yield ("write", n)
+    yield ("forms",)
+    for ncols in (1, 2, 3):
+        yield ("long", ncols)
 
 
 def _text(header, rows, crlf=False, blank_at=None):
@@ -212,6 +215,90 @@ def _run_headers(case):
     return {"evals": evals, "nontrivial": evals, "judged": counters["judged"], "viols": viols, "outcomes": outcomes, "sample": sample}
 
 
+# decimal numerals as other programs write them (no digit before / after the point, explicit plus sign, upper-case exponent, leading zeros)
+FORMS = [".5", "-.25", "5.", "+.5e-3", "1.E3", "1e3", "1E-2", "+7", "007", "0.50", "-0.0", "1e+2", "12.", "-.5E+1", "+0", "3"]
+
+
+def _run_forms(case):
+    work = snapshot.scratch_dir("c17_")
+    viols, outcomes = [], {}
+    counters = {"judged": 0}
+    evals = 0
+    sample = None
+    try:
+        for form in FORMS:
+            value = float(form)
+            for layout, idx in ((["A"], 0), (["A", "B"], 0), (["B", "A"], 1)):
+                for pos in (0, 1, 2):
+                    col = [1.5, 2.5, 4.0]
+                    col[pos] = value
+                    rows = []
+                    for r, x in enumerate(col):
+                        cell = form if r == pos else repr(x)
+                        rows.append([cell] if len(layout) == 1 else ([cell, "7.0"] if idx == 0 else ["7.0", cell]))
+                    text = ",".join(layout) + "\n" + "".join(",".join(r) + "\n" for r in rows)
+                    with open(os.path.join(work, "n.csv"), "w", newline="") as f:
+                        f.write(text)
+                    for dt in (None, "Float") + (("Integer",) if value == int(value) else ()):
+                        if dt == "Integer":
+                            col_i = [1, 2, 4]
+                            col_i[pos] = value
+                            rows_i = [[form if r == pos else str(int(x))] + ([] if len(layout) == 1 else ["7"]) for r, x in enumerate(col_i)]
+                            if idx == 1:
+                                rows_i = [list(reversed(r)) for r in rows_i]
+                            with open(os.path.join(work, "n.csv"), "w", newline="") as f:
+                                f.write(",".join(layout) + "\n" + "".join(",".join(r) + "\n" for r in rows_i))
+                        res = _read(work, "n.csv", "A", -9999, dt)
+                        evals += 1
+                        tag = {"file": text, "numeral": form, "DataType": dt}
+                        sample = tag
+                        oc = _check_read(res, col_i if dt == "Integer" else col, -9999, dt, viols, tag, counters)
+                        if oc != "ok" and viols:
+                            viols[-1]["key"] += ":numeral-form"
+                        outcomes["forms:" + oc] = outcomes.get("forms:" + oc, 0) + 1
+    finally:
+        import shutil
+        shutil.rmtree(work, ignore_errors=True)
+    return {"evals": evals, "nontrivial": evals, "judged": counters["judged"], "viols": viols[:20], "outcomes": outcomes, "sample": sample}
+
+
+def _run_long(case):
+    """long tables (named sizes 24, 30, 100, 1000 rows) of decimals: one, two and three columns, with and without missing markers"""
+    _, ncols = case
+    work = snapshot.scratch_dir("c17_")
+    viols, outcomes = [], {}
+    counters = {"judged": 0}
+    evals = 0
+    sample = None
+    try:
+        for nrows in (24, 30, 100, 1000):
+            for marker_every in (0, 7):
+                cols = []
+                for c in range(ncols):
+                    col = [float(((r * 37 + c * 11) % 89)) + [0.515, 0.25, 0.125][c % 3] for r in range(nrows)]
+                    if marker_every:
+                        col = [(-9999.0 if (r + c) % marker_every == 3 else x) for r, x in enumerate(col)]
+                    cols.append(col)
+                names = ["A", "B", "C"][:ncols]
+                text = ",".join(names) + "\n" + "".join(",".join(repr(cols[c][r]) for c in range(ncols)) + "\n" for r in range(nrows))
+                with open(os.path.join(work, "l.csv"), "w", newline="") as f:
+                    f.write(text)
+                for c, name in enumerate(names):
+                    for mv in (None, -9999):
+                        res = _read(work, "l.csv", name, mv, None)
+                        evals += 1
+                        tag = {"rows": nrows, "columns": ncols, "field": name, "MissingVal": mv, "first_lines": text[:80]}
+                        sample = tag
+                        oc = _check_read(res, cols[c], mv, None, viols, tag, counters)
+                        if oc != "ok" and viols:
+                            viols[-1]["key"] += ":long-table"
+                        outcomes["long:" + oc] = outcomes.get("long:" + oc, 0) + 1
+    finally:
+        import shutil
+        shutil.rmtree(work, ignore_errors=True)
+    return {"evals": evals, "nontrivial": evals, "judged": counters["judged"], "viols": viols[:20], "outcomes": outcomes, "sample": sample}
+
+
 def _run_faults(case):
     work = snapshot.scratch_dir("c17_")
     viols, outcomes = [], {}
@@ -362,4 +449,4 @@ def _run_write(case):
 
 def run(case):
     case = tuple(case)
-    return {"read": _run_read, "headers": _run_headers, "faults": _run_faults, "write": _run_write}[case[0]](case)
+    return {"read": _run_read, "headers": _run_headers, "faults": _run_faults, "write": _run_write, "forms": _run_forms, "long": _run_long}[case[0]](case)
